@@ -686,6 +686,12 @@ class ExecS(Exec):
         for v in sorted(mod):
             if v in h.env:
                 cur = h.env[v]
+                lt_ = self.cx.c.local_types.get(v) if self.cx.depth == 0 else None
+                if lt_ is not None and not isinstance(lt_, api.SeqT):
+                    h.env[v] = api.mk(lt_, v, h.pc)
+                    continue
+                if cur is None:
+                    raise AttachError(f"{self.cx.fn}: `{v}` is None before loop {no} and assigned inside it: declare its type in local_types")
                 if isinstance(cur, CArr) and cur.name not in stored and not self.rebinds(s.body, v):
                     continue
                 fields = paths.get(v)
